@@ -220,7 +220,7 @@ def check_xml_files_equivalence(file_path_1: str, file_path_2: str, state_manage
     try:
         state_manager.add_step('Check if data in files are equal')
         checker.check_object_store(obj_store_1, obj_store_2)
-    except (KeyError, AssertionError) as error:
+    except (KeyError, AssertionError, NotImplementedError) as error:
         state_manager.set_step_status(Status.FAILED)
         logger.error(error)
         return
